@@ -2,6 +2,7 @@
   Props/C04.lean — bulkhead: concurrency caps hold at every instant and never leak.
   Every theorem quantifies over ALL schedules and ANY number of callers.
 -/
+import CircuitProofs.Props.C04Tie
 import CircuitModel.Conc.Gauge
 import CircuitProofs.Lemmas.Conc
 namespace CM.Props.C04
